@@ -25,6 +25,24 @@ def read_file(path):
         return None
 
 
+DIRECTED = [
+    # come back to an edited entry at the oldest end; edits must not reach the file
+    {"init": "a\n", "max": 1, "sessions": [{"steps": ["prev-history", "put(c)", "prev-history", "next-history", "prev-history"], "end": "abort"},
+                                          {"steps": ["prev-history"], "end": "accept"}]},
+    {"init": "a\nb\n", "max": 3, "sessions": [{"steps": ["prev-history", "prev-history", "put(1)", "prev-history", "prev-history", "next-history",
+                                                        "prev-history"], "end": "print-query"}]},
+    # every way of submitting records the query: become as well
+    {"init": "a\n", "max": 3, "sessions": [{"steps": ["change-query(b)"], "end": "become(true)"}, {"steps": ["prev-history"], "end": "abort"}]},
+    {"init": None, "max": 2, "sessions": [{"steps": ["change-query(x1)"], "end": "become(exit 1)"}, {"steps": ["change-query(ab)"], "end": "accept"},
+                                          {"steps": ["prev-history", "prev-history"], "end": "become(true)"}]},
+    # a foreign file without a trailing newline, below the limit
+    {"init": "a\nb", "max": 5, "sessions": [{"steps": ["change-query(c)"], "end": "accept"}, {"steps": ["prev-history"], "end": "abort"}]},
+    {"init": "b c", "max": 2, "sessions": [{"steps": ["change-query(a)"], "end": "print-query"}]},
+    # next at the newest end, scratch line kept
+    {"init": "a\nb\n", "max": 3, "sessions": [{"steps": ["put(c)", "next-history", "prev-history", "next-history", "next-history"], "end": "accept"}]},
+]
+
+
 def make_chain(rng, nsessions):
     init = rng.choice([None, "", "a", "a\n", "a\nb\n", "a\n\nb\n", "\na\nb", "a\nb\nc\na\n", "b c\nx1\n", "\n\n"])
     mx = rng.choice([1, 2, 3, 5])
@@ -44,7 +62,8 @@ def make_chain(rng, nsessions):
             else:
                 steps.append(rng.choice(["prev-history+prev-history", "prev-history+put(c)+next-history", "next-history+prev-history",
                                          "backward-delete-char", "clear-query"]))
-        end = rng.choice(["accept", "accept", "accept", "abort", "print-query", "change-query(zzzz)+accept", "clear-query+accept"])
+        end = rng.choice(["accept", "accept", "accept", "abort", "print-query", "change-query(zzzz)+accept", "clear-query+accept",
+                          "become(true)", "accept-or-print-query"])
         chain.append({"steps": steps, "end": end})
     return {"init": init, "max": mx, "sessions": chain}
 
@@ -85,7 +104,8 @@ def run_chain(ctx, fzf, cid, chain):
                 if i + 1 >= len(te):
                     raise Infra("history action without a following event")
                 events.append({"ev": "prev" if e["act"] == "prev-history" else "next", "inp": e["input"], "ret": te[i + 1]["input"]})
-        final_q = [e for e in te if e["ev"] == "term.exit"][-1]["input"]
+        exits = [e for e in te if e["ev"] == "term.exit"]
+        final_q = exits[-1]["input"] if exits else te[-1]["input"]       # become(...) replaces the process: no exit event
         events.append({"ev": "end", "how": "submit" if status in (0, 1) else "quit", "q": final_q, "status": status,
                        "after": tokens(read_file(path))})
     return events
